@@ -12,10 +12,10 @@ import (
 func init() {
 	register(&property{id: "C13", run: runC13, meta: propMeta{
 		level: "other",
-		explanation: "Structural necessary conditions of layout independence in the built-in scanner and its driver: a lexeme pending when the input ends is evaluated (not dropped) and only when one is pending; only end-of-input is turned into the end marker, every other read error is returned; the terminals the scan loop skips are exactly layout (disjoint from the grammar's terminals, and every other accepting label is a grammar terminal), so blanks, newlines and comments never reach the parser; optional semicolons are grammar (C04); the buffer half passed to the dependency's reader exceeds the length of the text on every path (R13.5), so the reader's half-boundary code is never reached. " +
-			"That is boundary independence by unreachability; the dependency's reader itself (which by reading reloads a half on re-arrival after Retract) is not proved right.",
-		trusted: []string{"the dependency's Input (Next/Retract/Lexeme/Skip) within one buffer half", "exact scanner tables (C05) and parser tables (C04)"},
-		assumptions: []string{"positions are computed by the dependency's reader"},
+		explanation: "Structural necessary conditions of layout independence in the built-in scanner and its driver: a lexeme pending when the input ends is evaluated (not dropped) and only when one is pending; only end-of-input is turned into the end marker, every other read error is returned; the terminals the scan loop skips are exactly layout (disjoint from the grammar's terminals, and every other accepting label is a grammar terminal), so blanks, newlines and comments never reach the parser; optional semicolons are grammar (C04); the text reaches the reader unmodified; the reader is the module's in-memory reader, whose text is fixed at construction and never re-filled (no buffer boundary exists), whose cursors keep begin <= forward <= len(text) and whose positions are computed by walking the runes of each lexeme (R13.4/R13.5). " +
+			"If lexer.New used the dependency's two-buffer reader instead, R13.5 requires a half larger than the text on every path.",
+		trusted: []string{"unicode/utf8's DecodeRune / DecodeLastRune contracts", "exact scanner tables (C05) and parser tables (C04)"},
+		assumptions: []string{"positions are computed by the module's in-memory reader (decided under R13.4)"},
 	}})
 }
 
